@@ -530,6 +530,18 @@ func allocatorPredicates(c *Ctx, r *Report, rule string) {
 				// not answer from a scan of the list (no call to a function that ranges over it, no range itself)
 				elemEq, scans := false, false
 				eachInstr(p, func(z ssa.Instruction) {
+					if bo, isB := z.(*ssa.BinOp); isB && bo.Op == token.NEQ {
+						// the same comparison written as an inequality answers "everybody but the driver"
+						for _, s := range []ssa.Value{bo.X, bo.Y} {
+							if l, isL := loadOf(s); isL {
+								if ia, isI := l.(*ssa.IndexAddr); isI {
+									if _, isK := constInt(ia.Index); isK {
+										scans = true
+									}
+								}
+							}
+						}
+					}
 					if bo, isB := z.(*ssa.BinOp); isB && bo.Op == token.EQL {
 						for _, s := range []ssa.Value{bo.X, bo.Y} {
 							if l, isL := loadOf(s); isL {
